@@ -80,6 +80,17 @@ def run_case(case, cid):
         rec["K"] = [nm(l) for l in case["labels"]]
         with warnings.catch_warnings():
             warnings.simplefilter("ignore")
+            first = build(case["tree"])
+            unchanged_first = all(pure.same(m, s) for m, s in leaves)
+            # what the caller does with a result is the caller's business: the expression is built a second time (from fresh
+            # leaves) after the first result was scribbled into, and the SECOND result is the one judged
+            try:
+                first *= 3
+                first -= 1
+                first[("__poked__",)] = 1
+            except Exception:       # noqa
+                pass
+            del leaves[:]
             res = build(case["tree"])
         rterms = pure.items_of(res)
         den = common.common_den([common.frac(v) for _, v in rterms])
@@ -88,7 +99,7 @@ def run_case(case, cid):
             rec["raised"] = "Inexact: non-integer coefficient in a truth function"
         rec["result"] = pure.enc_terms(rterms, nm, 1) if den == 1 else []
         rec["rtype"] = type(res).__name__
-        rec["unchanged"] = all(pure.same(m, s) for m, s in leaves)
+        rec["unchanged"] = unchanged_first and all(pure.same(m, s) for m, s in leaves)
     except KeyError as e:
         rec["raised"] = "KeyError: " + str(e)[:80]
         rec["raise_ok"] = quad_leaf[0]          # documented: quadratic kinds cannot hold intermediate terms of degree > 2
